@@ -136,7 +136,14 @@ func RepoDigest() string {
 }
 
 // WorkDir is /verif/.work/e2.
-func WorkDir() string { return filepath.Join(core.Root(), ".work", "e2") }
+func WorkDir() string {
+	if r := core.RepoDir(); r != "/repo" {
+		// corpora of another copy of goa (VERIF_REPO) never share a directory with /repo's
+		h := sha256.Sum256([]byte(r))
+		return filepath.Join(core.Root(), ".work", "e2-alt-"+hex.EncodeToString(h[:4]))
+	}
+	return filepath.Join(core.Root(), ".work", "e2")
+}
 
 func run(dir string, timeout time.Duration, name string, args ...string) (string, error, bool) {
 	cmd := exec.Command(name, args...)
@@ -163,14 +170,24 @@ func run(dir string, timeout time.Duration, name string, args ...string) (string
 // ensureGenworker builds bin/genworker from the current sources.
 func ensureGenworker() (string, error) {
 	bin := filepath.Join(core.Root(), "bin", "genworker")
-	out, err, _ := run(core.Root(), 10*time.Minute, "go", "build", "-o", bin, "./cmd/genworker")
+	args := []string{"build"}
+	if mf := os.Getenv("VERIF_MODFILE"); mf != "" {
+		// running against another copy of goa (VERIF_REPO): see run.sh
+		args = append(args, "-modfile="+mf)
+		bin += ".alt-" + RepoDigest()
+	}
+	out, err, _ := run(core.Root(), 10*time.Minute, "go", append(args, "-o", bin, "./cmd/genworker")...)
 	if err != nil {
 		return "", fmt.Errorf("building genworker: %v\n%s", err, out)
 	}
 	// stand-in protoc (engine E5), when present in this revision of /verif
 	if _, serr := os.Stat(filepath.Join(core.Root(), "cmd", "protoc")); serr == nil {
 		_ = os.MkdirAll(filepath.Join(core.Root(), "bin", "tools"), 0o755)
-		out, err, _ := run(core.Root(), 10*time.Minute, "go", "build", "-o", filepath.Join(core.Root(), "bin", "tools", "protoc"), "./cmd/protoc")
+		pargs := []string{"build"}
+		if mf := os.Getenv("VERIF_MODFILE"); mf != "" {
+			pargs = append(pargs, "-modfile="+mf)
+		}
+		out, err, _ := run(core.Root(), 10*time.Minute, "go", append(pargs, "-o", filepath.Join(core.Root(), "bin", "tools", "protoc"), "./cmd/protoc")...)
 		if err != nil {
 			return "", fmt.Errorf("building stand-in protoc: %v\n%s", err, out)
 		}
